@@ -253,16 +253,11 @@ static int opsMode(int argc, char** argv)
     Level L(0, std::move(grid), std::move(lc), ExtrapolationType::NONE, false);
     const PolarGrid& g = L.grid();
     int N = g.numberOfNodes();
-    L.initializeResidual(geom, coeff, dir, threads, StencilDistributionMethod::CPU_GIVE);
-    L.initializeSmoothing(geom, coeff, dir, threads, StencilDistributionMethod::CPU_TAKE);
-    const bool refinable = nr % 2 == 1 && nt % 2 == 0; // the extrapolated smoother needs a grid that has a coarse grid
-    if (refinable)
-        L.initializeExtrapolatedSmoothing(geom, coeff, dir, threads, StencilDistributionMethod::CPU_TAKE);
-    // a second level on the same shape carries the take residual
+    // a second level on the same shape carries the other strategy of every operator
     auto grid2 = std::make_unique<PolarGrid>(rad, ang, split);
     auto lc2   = std::make_unique<LevelCache>(*grid2, coeff, geom, true, true);
     Level L2(0, std::move(grid2), std::move(lc2), ExtrapolationType::NONE, false);
-    L2.initializeResidual(geom, coeff, dir, threads, StencilDistributionMethod::CPU_TAKE);
+    const bool refinable = nr % 2 == 1 && nt % 4 == 0 && nc >= 3; // the extrapolated smoothers need a grid that has a coarse grid
     Vector<double> x(N), rhs(N), result(N), temp(N);
     std::mt19937 gen(3);
     std::uniform_real_distribution<double> U(-1, 1);
@@ -281,6 +276,19 @@ static int opsMode(int argc, char** argv)
     fprintf(g_out, "]}\n");
     gmgpolar_verif::recorder() = &rec;
     g_on = true;
+    // the assembly regions of every operator (matrix builds with their colour phases) are recorded as well
+    fprintf(g_out, "{\"mark\":\"assembly\",\"reg\":%ld}\n", g_region.load());
+    L.initializeResidual(geom, coeff, dir, threads, StencilDistributionMethod::CPU_GIVE);
+    L.initializeSmoothing(geom, coeff, dir, threads, StencilDistributionMethod::CPU_TAKE);
+    L.initializeDirectSolver(geom, coeff, dir, threads, StencilDistributionMethod::CPU_GIVE);
+    L2.initializeResidual(geom, coeff, dir, threads, StencilDistributionMethod::CPU_TAKE);
+    L2.initializeSmoothing(geom, coeff, dir, threads, StencilDistributionMethod::CPU_GIVE);
+    L2.initializeDirectSolver(geom, coeff, dir, threads, StencilDistributionMethod::CPU_TAKE);
+    if (refinable) {
+        L.initializeExtrapolatedSmoothing(geom, coeff, dir, threads, StencilDistributionMethod::CPU_TAKE);
+        L2.initializeExtrapolatedSmoothing(geom, coeff, dir, threads, StencilDistributionMethod::CPU_GIVE);
+    }
+    dumpAll();
     fprintf(g_out, "{\"mark\":\"residualGive\",\"reg\":%ld}\n", g_region.load());
     L.computeResidual(result, rhs, x);
     dumpAll();
@@ -294,6 +302,22 @@ static int opsMode(int argc, char** argv)
     }
     fprintf(g_out, "{\"mark\":\"residualTake\",\"reg\":%ld}\n", g_region.load());
     L2.computeResidual(result, rhs, x);
+    dumpAll();
+    fprintf(g_out, "{\"mark\":\"smootherGive\",\"reg\":%ld}\n", g_region.load());
+    L2.smoothing(x, rhs, temp);
+    dumpAll();
+    if (refinable) {
+        fprintf(g_out, "{\"mark\":\"xsmootherGive\",\"reg\":%ld}\n", g_region.load());
+        L2.extrapolatedSmoothing(x, rhs, temp);
+        dumpAll();
+    }
+    fprintf(g_out, "{\"mark\":\"directGive\",\"reg\":%ld}\n", g_region.load());
+    result = rhs;
+    L.directSolveInPlace(result);
+    dumpAll();
+    fprintf(g_out, "{\"mark\":\"directTake\",\"reg\":%ld}\n", g_region.load());
+    result = rhs;
+    L2.directSolveInPlace(result);
     g_on = false;
     dumpAll();
     fprintf(g_out, "{\"mark\":\"end\",\"reg\":%ld}\n", g_region.load());
